@@ -30,6 +30,12 @@ def root_of(key):
     return key.split(":")[-1].split("/")[0].split("#")[0].split("~")[0]
 
 
+def gate_path(g):
+    """response path of the position a gate belongs to"""
+    body = g.split(":")[-1].split("#")[0].split("~")[0]
+    return wire.enc_path([int(p) if p.isdigit() else p for p in body.split("/")])
+
+
 class ARun:
     def __init__(self, case, sd, p_gate, op):
         from graphql import parse
@@ -43,10 +49,15 @@ class ARun:
         self.result = None
         self.raised = None
         doc = parse(gqlmini.render_doc(case, op))
+        # abstract types are resolved either by a (possibly awaitable) resolve_type or, for odd seeds, by the default
+        # resolver through the possible types' (possibly awaitable) is_type_of
+        use_is_type_of = sd % 2 == 1
+        gqlmini.IS_TYPE_OF_HOOK = (lambda tn, thunk, info: self.wrap(f"istype{tn}:" + "/".join(map(str, info.path.as_list())), thunk)) if use_is_type_of else None
         asyncio.events._set_running_loop(self.loop)
         try:
             r = execute(gqlmini.schema(), doc, gqlmini.to_py(case["root"]), variable_values=gqlmini.render_vars(case),
-                        field_resolver=gqlmini.make_resolver(self.calls, self.wrap), type_resolver=gqlmini.make_type_resolver(self.wrap))
+                        field_resolver=gqlmini.make_resolver(self.calls, self.wrap),
+                        type_resolver=None if use_is_type_of else gqlmini.make_type_resolver(self.wrap))
         finally:
             asyncio.events._set_running_loop(None)
         if asyncio.iscoroutine(r) or asyncio.isfuture(r):
@@ -79,8 +90,11 @@ class ARun:
 
     def wrap(self, key, thunk):
         root = root_of(key)
-        if not key.startswith("type:"):
-            self.log.append(root)
+        if not key.startswith("type:") and not key.startswith("istype"):
+            # a resolver of root field `root` is invoked: which other root fields still have uncancelled pending gates?
+            for g, f in self.gates.items():
+                if not f.done() and root_of(g) != root and not g.startswith("istype") and not g.startswith("type:"):
+                    self.log.append({"r": root, "e": root_of(g), "at": gate_path(g), "rat": gate_path(key)})
         mode = hh(self.sd, key, "m")
         if mode >= self.p_gate:
             return self.listify(key, thunk())
@@ -139,11 +153,11 @@ class ARun:
         return [g for g, f in self.gates.items() if not f.done()]
 
     def settle(self, g):
-        self.log.append(root_of(g))
         self.gates[g].set_result(None)
         self._q()
 
     def close(self):
+        gqlmini.IS_TYPE_OF_HOOK = None
         for t in self.loop.pending_tasks():
             t.cancel()
         try:
